@@ -12,6 +12,7 @@ import (
 	"io"
 	"math/rand"
 	"os"
+	"os/exec"
 	"path/filepath"
 	"regexp"
 	"sort"
@@ -100,6 +101,94 @@ type ioScenario struct {
 	NoAgain bool `json:"noagain"`
 	// PathLevel: "" = drawn from the seed, "yes" / "no" = path parameters on the path item / on every operation
 	PathLevel string `json:"pathlevel"`
+	// Cli: export also through this sysl binary, to a path that already holds an earlier, longer export
+	Cli string `json:"cli"`
+}
+
+// exportRewrite runs `sysl export` three times: a longer model to out, the model to out again, the model to a fresh
+// path; reports whether all ran and whether the rewritten file equals the fresh one.
+func exportRewrite(sc *ioScenario, src string) tr.Ev {
+	ev := tr.Ev{"t": sc.ID, "e": "written", "ok": false, "same": false, "msg": ""}
+	dir, err := os.MkdirTemp(sc.Tmp, "exp")
+	if err != nil {
+		ev["msg"] = err.Error()
+		return ev
+	}
+	defer os.RemoveAll(dir)
+	longer := src + "    !type ZzEarlier:\n        first <: string\n        second <: int\n        third <: sequence of string\n" +
+		"    /zz/earlier/{id <: int}:\n        GET:\n            return 200 <: ZzEarlier\n        DELETE:\n            return 204\n"
+	_ = os.WriteFile(filepath.Join(dir, "src.sysl"), []byte(src), 0o644)
+	_ = os.WriteFile(filepath.Join(dir, "longer.sysl"), []byte(longer), 0o644)
+	ext := sc.Enc
+	if ext == "" {
+		ext = "yaml"
+	}
+	run := func(module, out string) error {
+		cmd := exec.Command(sc.Cli, "--root", dir, "export", "-f", sc.Fmt, "-a", ioApp, "-o", filepath.Join(dir, out), module)
+		cmd.Dir = dir
+		if o, err := cmd.CombinedOutput(); err != nil {
+			return fmt.Errorf("%v: %s", err, short(fmt.Errorf("%s", o)))
+		}
+		return nil
+	}
+	for _, step := range [][2]string{{"longer.sysl", "out." + ext}, {"src.sysl", "out." + ext}, {"src.sysl", "fresh." + ext}} {
+		if err := run(step[0], step[1]); err != nil {
+			ev["msg"] = err.Error()
+			return ev
+		}
+	}
+	a, _ := os.ReadFile(filepath.Join(dir, "out."+ext))
+	b, _ := os.ReadFile(filepath.Join(dir, "fresh."+ext))
+	// the exporters print maps and some lists in no fixed order (a finding of C19): the two files are compared as
+	// documents, lists as multisets
+	ca, erra := canonDoc(a, ext)
+	cb, errb := canonDoc(b, ext)
+	if erra != nil || errb != nil {
+		ev["ok"], ev["msg"] = true, fmt.Sprint("rewritten: ", erra, "; fresh: ", errb)
+		return ev
+	}
+	ev["ok"], ev["same"] = true, ca == cb
+	return ev
+}
+
+// canonDoc parses a YAML or JSON document and prints it with sorted keys and sorted lists.
+func canonDoc(b []byte, ext string) (string, error) {
+	j := b
+	if ext != "json" {
+		var err error
+		if j, err = yaml.YAMLToJSON(b); err != nil {
+			return "", err
+		}
+	}
+	var v any
+	if err := json.Unmarshal(j, &v); err != nil {
+		return "", err
+	}
+	var canon func(x any) any
+	canon = func(x any) any {
+		switch t := x.(type) {
+		case map[string]any:
+			for k, e := range t {
+				t[k] = canon(e)
+			}
+			return t
+		case []any:
+			keyed := make([]string, len(t))
+			for i, e := range t {
+				c, _ := json.Marshal(canon(e))
+				keyed[i] = string(c)
+			}
+			sort.Strings(keyed)
+			out := make([]any, len(keyed))
+			for i, k := range keyed {
+				out[i] = json.RawMessage(k)
+			}
+			return out
+		}
+		return x
+	}
+	out, err := json.Marshal(canon(v))
+	return string(out), err
 }
 
 const ioApp = "Foo"
@@ -1304,7 +1393,14 @@ func importerFormat(f string) string {
 }
 
 func runImporter(sc *ioScenario, file, content string, logger *logrus.Logger) (string, error) {
+	out, _, err := runImporterKeep(sc, file, content, logger)
+	return out, err
+}
+
+// runImporterKeep also hands back the importer object, so that the same object can be asked again.
+func runImporterKeep(sc *ioScenario, file, content string, logger *logrus.Logger) (string, importer.Importer, error) {
 	var out string
+	var obj importer.Importer
 	err := guard(func() error {
 		imp, err := importer.Factory(file, false, importerFormat(sc.Fmt), []byte(content), logger)
 		if err != nil {
@@ -1314,10 +1410,11 @@ func runImporter(sc *ioScenario, file, content string, logger *logrus.Logger) (s
 		if err != nil {
 			return err
 		}
+		obj = imp
 		out, err = imp.Load(content)
 		return err
 	})
-	return out, err
+	return out, obj, err
 }
 
 func compileText(files map[string]string, main string) (*sysl.Module, error) {
@@ -1425,6 +1522,7 @@ func interopImport(w *tr.Writer, sc *ioScenario, logger *logrus.Logger) {
 	file := filepath.Join(sc.Tmp, fmt.Sprintf("doc%d%s", sc.ID, ext))
 	var text string
 	var mod *sysl.Module
+	var sameObject importer.Importer
 	if sc.Via == "stmt" {
 		// the same importers run for `import doc.yaml as Foo ~openapi3`
 		mode := "~" + sc.Fmt
@@ -1439,7 +1537,7 @@ func interopImport(w *tr.Writer, sc *ioScenario, logger *logrus.Logger) {
 			return
 		}
 	} else {
-		text, err = runImporter(sc, file, content, logger)
+		text, sameObject, err = runImporterKeep(sc, file, content, logger)
 		if !stage(w, sc, "import", err, tr.Ev{"text": text}) {
 			return
 		}
@@ -1468,6 +1566,18 @@ func interopImport(w *tr.Writer, sc *ioScenario, logger *logrus.Logger) {
 	}
 	if err2 == nil && !same {
 		err2 = fmt.Errorf("second import gives different text")
+	}
+	// ... and so does asking the same importer object again
+	if err2 == nil && sameObject != nil {
+		var t3 string
+		err2 = guard(func() error {
+			var err error
+			t3, err = sameObject.Load(content)
+			return err
+		})
+		if err2 == nil && t3 != text {
+			err2 = fmt.Errorf("second import with the same importer gives different text")
+		}
 	}
 	stage(w, sc, "again", err2, nil)
 }
@@ -1663,4 +1773,7 @@ func interopExport(w *tr.Writer, sc *ioScenario, logger *logrus.Logger) {
 	}
 	stage(w, sc, "importback", err, tr.Ev{"facts": back, "text": text})
 	_ = os.Remove(file)
+	if sc.Cli != "" {
+		w.Emit(exportRewrite(sc, src))
+	}
 }
